@@ -1,5 +1,7 @@
 """C08 - exactly the requested instantiations exist, in order, with stable names (Engine F)."""
+from .. import rules_alias as RA
 from .. import rules_flow as RF
+from .c13 import P1_EXEMPT
 from .. import rules_inst as RI
 
 ID = "C08"
@@ -16,7 +18,9 @@ EXPLANATION = (
     "instantiation list; C++ spellings are Name<args> built from the same two. N5: the naming helper "
     "upper-cases the first character only and concatenates suffixes in instantiation order. N6: neither the "
     "parser nor the instantiator keeps class-level / module-level / memoised state, so a typedef is resolved "
-    "against the declarations of the module being instantiated and never against an earlier module's.")
+    "against the declarations of the module being instantiated and never against an earlier module's. N7: the "
+    "instantiator modifies only objects it created itself (the one named exception is the documented replacement "
+    "of namespace.content), so what passes through is unchanged, parent links included.")
 ASSUMPTIONS = [
     "itertools.product enumerates in lexicographic order of its argument lists (documented)",
     "the parser keeps instantiation lists in source order (C01/G6)",
@@ -30,3 +34,5 @@ def run(ctx, rep):
     rep.run(RI.rule_naming, ctx, rep, "N4", min_sites=5)
     rep.run(RI.rule_capitalise, ctx, rep, "N5")
     rep.run(RF.rule_no_shared_state, ctx, rep, "N6", packages=("gtwrap/interface_parser", "gtwrap/template_instantiator"))
+    # "pass through unchanged ... in their original scope": nothing that existed before is modified in place
+    rep.run(RA.rule_mutate_only_fresh, ctx, rep, "N7", "gtwrap/template_instantiator", P1_EXEMPT, min_sites=20)
